@@ -113,6 +113,31 @@ def gen(rng, tier):
             ops.append(['ack_then_disc', p, rng.randrange(nhosts)])
         else:
             ops.append(['adv', rng.choice([0.01, 0.1, 0.5])])
+    if rng.random() < 0.15:
+        # aimed: two callbacks outstanding for one client, issued by a host
+        # the client is not connected to, acknowledged newest first
+        p = rng.randrange(npeers)
+        ns = rng.choice(nss)
+        others = [h for h in range(nhosts) if h != cfg['place'][p]]
+        if others:
+            h = rng.choice(others)
+            at = rng.randrange(len(ops) // 2, len(ops) + 1)
+            ops[at:at] = [['connect', p, ns], ['emit_cb', h, p, ns],
+                          ['emit_cb', h, p, ns], ['ack', p, 'newest'],
+                          ['ack', p, 'newest']]
+    elif rng.random() < 0.12:
+        # aimed: the acknowledgement is still on its way when a host that
+        # does not hold the client asks for its disconnection
+        p = rng.randrange(npeers)
+        ns = rng.choice(nss)
+        others = [h for h in range(nhosts) if h != cfg['place'][p]]
+        if others:
+            cfg['regime'] = 'lagged'
+            cfg['lags'] = rng.randrange(1, len(LAGS))
+            h = rng.choice(others)
+            at = rng.randrange(len(ops) // 2, len(ops) + 1)
+            ops[at:at] = [['connect', p, ns], ['emit_cb', h, p, ns],
+                          ['ack_then_disc', p, rng.choice(others)]]
     return {'cfg': cfg, 'ops': ops}
 
 
@@ -418,8 +443,9 @@ def _run(case, cfg, w):
             lst = outstanding.get(p, [])
             if lst and sc.alive(p):
                 # any of the outstanding ones, not necessarily the oldest
-                ns, id_, tag = lst.pop(w.choices.draw('app', len(lst),
-                                                      'which_ack'))
+                ns, id_, tag = lst.pop(
+                    -1 if len(op) > 2 and op[2] == 'newest' else
+                    w.choices.draw('app', len(lst), 'which_ack'))
                 if sc.sid(p, ns) == cb_issued[tag]['sid']:
                     pay = ack_payload(tag)
                     sc.peers[p].send_pkt(sio.ACK, ns, id_, pay)
